@@ -122,7 +122,12 @@ def run(ctx):
     rng = random.Random(ctx.seed + 15)
     now = sc.T0
 
-    def mk(i, big=False):
+    def mk(i, big=False, binary=False):
+        if binary:
+            # a valid message whose length-prefixed data field carries octets that mean something to text handling:
+            # NUL, the field separator, '=' and look-alikes of the framing fields
+            raw = rng.choice(["ab\x00\x00cd", "\x00", "x\x01y\x00z", "\x00" * 40, "8=FIX.4.2\x019=5\x00", "q=\x00=\x01\x00r" * 3])
+            return F.compose("A", i, "ACC", "INI", F.ts(now), [(98, 0), (108, 30), (95, len(raw)), (96, raw)])
         body = F.new_order("p%d" % i)
         if big:
             body = body + [(58, "x" * rng.randint(300, 1500))]
@@ -139,7 +144,7 @@ def run(ctx):
         jobs.append((w2, 0, "", map_cuts(cuts, w2, [(3, 0), (12, 1)])))
     # longer streams, random chunkings incl. byte-by-byte
     for k in range(40 if ctx.quick else 600):
-        ws = [mk(i + 1, big=rng.random() < 0.3) for i in range(rng.randint(1, 5))]
+        ws = [mk(i + 1, big=rng.random() < 0.3, binary=rng.random() < 0.3) for i in range(rng.randint(1, 5))]
         tot = sum(len(x) for x in ws)
         mode = rng.random()
         if mode < 0.15:
@@ -200,7 +205,7 @@ def run(ctx):
         ctx.fail("C15:memerr:%s" % k, "sanitizer report / crash in the reader", {"stderr": err[:5000], "abstract": execs[gi].abstract if gi is not None else None})
     ctx.tick("validate")
     ctx.rule = ("two-message stream split at %s byte position, %d TLC chunkings mapped onto real field boundaries, seeded longer streams "
-                "(1-5 messages, byte-by-byte to 5000-byte chunks), %d preamble corruption kinds x position x chunking; distinct = "
+                "(1-5 messages, some with NUL / separator octets inside a length-prefixed data field, byte-by-byte to 5000-byte chunks), %d preamble corruption kinds x position x chunking; distinct = "
                 "distinct (stream, corruption, chunking)" % ("every" if not ctx.quick else "every third", len(cutsets), len(KINDS)))
     ctx.sample({"stream_lengths": [len(w) for w in w2], "chunks": jobs[len(jobs) // 3][3][:10], "delivered": traces[len(jobs) // 3][-1]["delivered"] if traces[len(jobs) // 3] else None})
     ctx.trusted = ["TLC", "probe_session record mode (Session::process overridden to record what the real reader thread delivers)",
